@@ -10,7 +10,7 @@
    Proofs/UrlC10.v), each of which ./check C10 samples against the real library. *)
 From Coq Require Import List NArith ZArith Bool.
 From Wpull Require Import Model.UrlLib Model.Url Proofs.UrlPeProofs Proofs.UrlEscCaseProofs Proofs.UrlFragProofs Proofs.ConstsAgree Gen.Consts Proofs.UrlPathProofs Proofs.UrlEncProofs
-  Proofs.UrlNormProofs Proofs.UrlC10 Proofs.UrlEquivProofs Proofs.UrlEquiv2Proofs Proofs.UrlEquiv3Proofs Proofs.UrlEscUrl Proofs.UrlSpelling.
+  Proofs.UrlNormProofs Proofs.UrlC10 Proofs.UrlEquivProofs Proofs.UrlEquiv2Proofs Proofs.UrlEquiv3Proofs Proofs.UrlEscUrl Proofs.UrlEscPath Proofs.UrlSpelling.
 Import ListNotations.
 Open Scope N_scope.
 
@@ -407,8 +407,7 @@ Example C10_whole_url_nonvacuous :
 Proof. cbv zeta. unfold scheme_text, plain_text. vm_compute. repeat split; auto; discriminate. Qed.
 
 (* The letter case of the hex digits of escapes in the QUERY and the FRAGMENT of a whole URL, for encoders that map ASCII to
-   itself and every other character to bytes >= 128 ([enc_high_ok]; UTF-8 is one: C10_utf8_encoder_high_ok).  (In the PATH the
-   clause is proved for the encoder of the component - C10_equiv_escape_case_partial - but not lifted through flatten_path.) *)
+   itself and every other character to bytes >= 128 ([enc_high_ok]; UTF-8 is one: C10_utf8_encoder_high_ok). *)
 Theorem C10_equiv_escape_case_whole_url_partial :
   forall enc lower_o idna_o ipv6_o int_o unq_o, enc_high_ok enc ->
   forall (sch sc : str) (dport : N) (A P0 q q' F F' : str),
@@ -423,6 +422,27 @@ Theorem C10_equiv_escape_case_whole_url_partial :
                  (parse enc lower_o idna_o ipv6_o int_o unq_o (sch ++ 58 :: rem')).
 Proof. exact parse_url_query_case. Qed.
 Print Assumptions C10_equiv_escape_case_whole_url_partial.
+
+(* ... and in the PATH: [hexcase] goes through the segment split, the dot-segment flattening and the join of flatten_path
+   (an escape never spans a slash, "." and ".." contain no escape) *)
+Theorem C10_equiv_escape_case_path_whole_url_partial :
+  forall enc lower_o idna_o ipv6_o int_o unq_o, enc_high_ok enc ->
+  forall (sch sc : str) (dport : N) (A P0 P0' T : str),
+    scheme_text lower_o sch sc dport ->
+    memb 47 A = false -> memb 63 A = false -> memb 35 A = false ->
+    memb 63 P0 = false -> memb 35 P0 = false -> hexcase P0 P0' -> tail_ok T ->
+    let rem := [47; 47] ++ A ++ 47 :: P0 ++ T in
+    let rem' := [47; 47] ++ A ++ 47 :: P0' ++ T in
+    plain_text (sch ++ 58 :: rem) -> plain_text (sch ++ 58 :: rem') ->
+    same_url enc (parse enc lower_o idna_o ipv6_o int_o unq_o (sch ++ 58 :: rem))
+                 (parse enc lower_o idna_o ipv6_o int_o unq_o (sch ++ 58 :: rem')).
+Proof. exact parse_url_path_case. Qed.
+Print Assumptions C10_equiv_escape_case_path_whole_url_partial.
+
+Theorem C10_flatten_path_hexcase :
+  forall s s' : str, hexcase s s' -> hexcase (flatten_path true s) (flatten_path true s').
+Proof. exact flatten_path_hexcase. Qed.
+Print Assumptions C10_flatten_path_hexcase.
 
 Theorem C10_utf8_encoder_high_ok : enc_high_ok utf8.
 Proof. exact utf8_enc_high_ok. Qed.
@@ -440,13 +460,13 @@ Example C10_escape_case_whole_url_nonvacuous :
 Proof. cbv zeta. vm_compute. split; reflexivity. Qed.
 
 (* THE LAST CLAUSE AS ONE THEOREM.  [respell] is the closure (reflexive, symmetric, transitive: any number of steps, in any
-   order and direction) of the seven proved re-spelling steps of a whole URL text [respell1] - letter case of the scheme, an
+   order and direction) of the eight proved re-spelling steps of a whole URL text [respell1] - letter case of the scheme, an
    explicit default port, letter case of the host name, another IPv4 notation of the same address, dropped path segments,
-   the letter case of the hex digits of escapes in query and fragment, a dropped fragment, each with the side conditions of
+   the letter case of the hex digits of escapes in the path and in query and fragment, a dropped fragment, each with the side conditions of
    its theorem above.  Related texts are both rejected with the same
    kind, or both parse, to URLs that are both network URLs or both not, and network URLs have the same normalized form,
-   scheme, host, port, path and query.  (Outside the closure: hex-digit case of escapes in the PATH - proved for the encoder
-   of the component, not lifted -, IPv6 re-spelling, user-info; those are compared on the implementation.) *)
+   scheme, host, port, path and query.  (Outside the closure: IPv6 re-spelling - a library oracle - and re-spelled user-info;
+   those are compared on the implementation.) *)
 Theorem C10_equiv_spellings :
   forall enc lower_o idna_o ipv6_o int_o unq_o (s s' : str),
     respell enc lower_o idna_o ipv6_o int_o s s' ->
